@@ -170,6 +170,18 @@ def pair_holds(op, a, b):
 
 def check_cmp_oracle(op, operand_canon, result):
     xs = [exact_of(c) for c in operand_canon]
+    if any(x is None for x in xs) and op in ("max", "min") and result.startswith("V "):
+        # some argument is inexact: the result is inexact, and it is the extreme of the arguments after the exact INTEGERS among
+        # them are converted to binary32 (ratios: not predicted)
+        fs = [f32_of(c) for c in operand_canon]
+        if all(f is not None for f in fs) and any(c.startswith("r:") for c in operand_canon) and not any(f != f for f in fs):
+            if not result[2:].startswith("r:"):
+                return "an argument is inexact, yet the result %s is exact" % result[2:]
+            got = f32_of(result[2:])
+            want = max(fs) if op == "max" else min(fs)
+            if got != want:
+                return "expected the %s of the converted arguments, %r, got %r" % (op, want, got)
+        return None
     if any(x is None for x in xs):
         if op in CMP_OPS and len(operand_canon) >= 2 and (result in ("V #t", "V #f")):
             pairs = [pair_holds(op, a, b) for a, b in zip(operand_canon, operand_canon[1:])]
